@@ -30,6 +30,11 @@ class Prop:
     stubs = []
 
     def generate(self, rng, tier):
+        if rng.random() < 0.05:
+            # the consumer of the stream of groups feeds the source: on receipt of a new group it pushes one more element of the
+            # same key into the (Subject) source, before the group's first element has been delivered
+            return {"clock": "test", "form": "group_by_feedback", "m": rng.choice([1, 2, 3]), "until": rng.random() < 0.5,
+                    "values": [rng.randrange(0, 9) for _ in range(rng.randrange(1, 6))], "sources": [], "sub_t": 205, "horizon": 400}
         form = rng.choice(FORMS)
         ctx = catalog.Ctx(rng, hot_p=0.45, falsy_p=0.3, sync_p=0.1)
         part = form.startswith("partition")
@@ -166,7 +171,57 @@ class Prop:
 
         tm.single(eng, sid, on_next, lambda e: terminal("E", e), lambda: terminal("C"))
 
+    def exec_feedback(self, sc):
+        import reactivex as rx
+        from reactivex.subject import Subject
+        out = Outcome()
+        w = vt.World(sc["clock"])
+        src = Subject()
+        m = sc["m"]
+        key = lambda v: v % m  # noqa: E731
+        obs = src.pipe(ops.group_by_until(key, None, lambda g: rx.never()) if sc["until"] else ops.group_by(key))
+        groups = []  # (key, [elements], [terminal])
+        pushed = []
+        state = {"E": None, "C": False}
+
+        def push(v):
+            pushed.append(v)
+            src.on_next(v)
+
+        def on_group(g):
+            rec = (g.key, [], [])
+            groups.append(rec)
+            g.subscribe(rec[1].append, lambda e: rec[2].append("E"), lambda: rec[2].append("C"))
+            push(g.key + m * (10 + len(groups)))  # same key, a value of its own
+
+        w.at(sc["sub_t"], lambda: obs.subscribe(on_group, lambda e: state.__setitem__("E", e), lambda: state.__setitem__("C", True)))
+        for i, v in enumerate(sc["values"]):
+            w.at(sc["sub_t"] + 10 * (i + 1), (lambda v=v: push(v)))
+        w.at(sc["sub_t"] + 10 * (len(sc["values"]) + 2), src.on_completed)
+        w.run(sc["horizon"])
+        out.digest = ("feedback", m, sc["until"], tuple(sc["values"]), tuple((k, tuple(sorted(e))) for k, e, _ in groups))
+        out.sim_time = sc["horizon"]
+        out.nontrivial = len(groups) >= 1
+        out.probes["form:group_by_feedback"] += 1
+        desc = "group_by%s with a consumer that feeds the source (keys=%d values=%s)" % ("_until" if sc["until"] else "", m, sc["values"])
+        if w.escaped:
+            out.bad("escaped", "%s: %r" % (desc, w.escaped[0][2:]))
+        keys = [k for k, _, _ in groups]
+        if len(keys) != len(set(keys)):
+            out.bad("model-mismatch", "%s: groups were announced for keys %s - a key that is already live got a second group" % (desc, keys))
+        for k, els, term in groups:
+            want = sorted(v for v in pushed if key(v) == k)
+            if sorted(els) != want and not out.viol:
+                out.bad("model-mismatch", "%s: the group of key %s received %s, the elements of that key are %s" % (desc, k, els, want))
+            if term != ["C"] and not out.viol:
+                out.bad("model-mismatch", "%s: the group of key %s ended with %s, the source completed" % (desc, k, term))
+        if not state["C"] and not out.viol:
+            out.bad("model-mismatch", "%s: the stream of groups did not complete" % desc)
+        return out
+
     def execute(self, sc):
+        if sc["form"] == "group_by_feedback":
+            return self.exec_feedback(sc)
         out = Outcome()
         desc = "form=%s keys=%s emap=%s sources=%s" % (sc["form"], sc["m"], sc["emap"], [(s["id"], s["kind"], s["events"]) for s in sc["sources"]])
         out.probes["form:" + sc["form"]] += 1
